@@ -84,6 +84,14 @@ def configs(tier, seed):
             for over in (False, True):
                 out.append(dict(harness="crash_file", enc=enc, gzip=gz, over=over, cost=4, wall=900, max_paths=20000))
     out.append(dict(harness="crash_sharded", cost=10, wall=1500, max_paths=40000))
+    if tier == "thorough":
+        # interrupted close under other sharding parameters (several shard files, compressed index / data) and the
+        # spill-to-disk writer
+        for spec in ([1, 0, 0, "raw", "raw"], [0, 1, 0, "raw", "raw"], [1, 1, 0, "gzip", "raw"], [0, 0, 0, "raw", "gzip"], [1, 0, 1, "gzip", "gzip"]):
+            for strategy in ("in memory", "on disk"):
+                if spec == [1, 0, 0, "raw", "raw"] and strategy == "in memory":
+                    continue
+                out.append(dict(harness="crash_sharded", spec=spec, strategy=strategy, cost=10, wall=1500, max_paths=40000))
     # network failures of the HTTP accessors: the request-fault harnesses of C14 (same model server, same fault plan:
     # one or all later requests answered 404/403/500/503 or with a reset connection), decided here for this property too
     from . import c14
@@ -369,12 +377,13 @@ def H_crash_sharded(ctx, cfg):
     env = Env()
     sb, sfa = S.setup(env)
     grid = (2, 2, 1)
-    info = S.make_info(grid, 1, 1, 0, 0)
+    info = S.make_info(grid, 1, *cfg.get("spec", [1, 0, 0, "raw", "raw"]))
+    strategy = cfg.get("strategy", "in memory")
     pls = {(0, 1, 0, 1, 0, 1): S.payload("a", 2), (1, 2, 0, 1, 0, 1): S.payload("b", 1), (1, 2, 1, 2, 0, 1): S.payload("c", 2)}
     ctx.input("payloads", [list(p.bs) for p in pls.values()])
 
     def writer():
-        w = sfa.ShardedFileAccessor(S.BASE, strategy="in memory")
+        w = sfa.ShardedFileAccessor(S.BASE, strategy=strategy)
         w.info = copy.deepcopy(info)
         for c_, p in pls.items():
             w.store_chunk(p, S.KEY, c_)
@@ -874,7 +883,8 @@ def _replay_crash_sharded(cfg, inp):
     n, files = inp["interruption"][:2]
     kinds = list(inp["kinds"])
     target = (kinds[n], kinds[:n].count(kinds[n])) if n < len(kinds) else None
-    info = S.make_info((2, 2, 1), 1, 1, 0, 0)
+    info = S.make_info((2, 2, 1), 1, *cfg.get("spec", [1, 0, 0, "raw", "raw"]))
+    strategy = cfg.get("strategy", "in memory")
 
     def kill(k):
         raise _Kill()
@@ -882,7 +892,7 @@ def _replay_crash_sharded(cfg, inp):
         for armed in (False, True):
             td = os.path.join(top, "armed" if armed else "dry")
             with _Interposer(sfa, top, kill) as ip:
-                w = sfa.ShardedFileAccessor(td, strategy="in memory")
+                w = sfa.ShardedFileAccessor(td, strategy=strategy)
                 w.info = copy.deepcopy(info)
                 for c_, p in zip(coords, pls):
                     w.store_chunk(p, S.KEY, c_)
